@@ -14,6 +14,21 @@ CHECKS = {
  "C06": ("7/C06", "TLC model check of Stack.tla + TLC validation of tree-shaped recordings of the real stacks",
          "TLC checks Stack!Out against the LIFO wording exhaustively (3 values, 8 ops) and shows that the open finding's deviation violates it; every Push/Pop sequence to depth 7 (thorough 9) on both implementations plus long seeded empty/refill runs is executed on the real code, Size/Peek/Search observed after every call, drain at every node; LStack.Pop's pinned defect is an exact named deviation so checking continues beneath it.",
          "bounded scope plus seeded long runs; the deviation KF-C06-1 is consulted only when no ideal outcome matches"),
+ "C04": ("7/C04", "TLC model check of BsTree.tla + TLC validation of tree-shaped recordings of the real tree",
+         "TLC checks BsTree!Out against the ordered-map wording over a call history (3 keys, 6 ops) and shows that the open finding's deviation violates SizeIsCount; every Upsert/Delete sequence over keys 0..4 to depth 5 (thorough 6) under both comparators plus seeded long runs over 200 keys (sorted, reversed, random insertion) is executed on the real code with Size, full Traverse and Get of every key observed after every call.",
+         "bounded scope plus seeded long runs; KF-C04-1 (size drift on deleting an absent key, pinned by the package example) is an exact deviation with a ghost counter, so everything else stays judged beneath it"),
+ "C07": ("7/C07", "TLC model check of LRU.tla + TLC validation of tree-shaped recordings of the real LRU cache",
+         "TLC checks LRU!Out against capacity bound, recency order and membership wording over a touch log (3 keys, capacities 1-2, 5 ops); every sequence of Add/Get/Remove/GetOldest/RemoveOldest/RemoveYoungest/Flush to depth 4 (thorough 5) for capacities 1..4 over capacity+1 keys, rejected capacities 0 and -1, a drain by RemoveOldest + Get of every key at every node, and seeded long runs with capacities 5/16/64 are executed on the real code with Count and GetYoungest observed after every call.",
+         "bounded scope plus seeded long runs; only side-effect-free observers are used after each call (Get refreshes recency), destructive observation is a terminal child"),
+ "C09": ("7/C09", "TLC model check of Trie.tla + TLC validation of tree-shaped recordings of the real trie",
+         "TLC checks the map and the prefix-query definitions against the wording (exact keys, sorted Keys, longest stored prefix, total byte order); every Put sequence over the 14 keys of length 1..3 over {a,b} to depth 4 (thorough 5), a 3-letter alphabet at depth 3, and seeded key sets with nested keys and bytes 0x00/0x7f/0x80/0xc3/0xff are executed on the real code with Size, drained Keys, Get/Contains of every string up to length 3 (incl. empty), StartsWith of every prefix up to 2 and LongestPrefix of every query up to 4 observed after every Put.",
+         "bounded scope plus seeded runs; result queue is queue.Queue (the only gogu type implementing trie.Queuer); Put of an empty key is outside the stated domain"),
+ "C10": ("7/C10", "TLC model check of BTree.tla + TLC validation of tree-shaped recordings of the real B-tree",
+         "TLC checks BTree!Out against the ordered-map wording over a call history; every Put/Remove sequence over keys 0..5 to depth 5 (thorough 6) plus seeded long runs over 400 keys in ascending, descending and random order (multi-level splits) is executed on the real code with Size, IsEmpty, Height (2^Height <= max(1, distinct keys ever inserted)), Traverse and Get observed after every call.",
+         "bounded scope plus seeded long runs; Height is an observed value constrained by the stated bound"),
+ "C19": ("7/C19", "TLC model check of List.tla + TLC validation of tree-shaped recordings of the real lists",
+         "TLC checks List!Out against 'never empty' and 'no edit loses, duplicates or reorders the other elements'; every edit sequence (Unshift, Append, Shift, Pop, InsertAfter/InsertBefore/Delete/Replace on every value used so far and an absent one, handles from Find immediately before use) to depth 4 (thorough 5: 2.1 million nodes) on both list types plus seeded long runs that shrink to one element and regrow is executed on the real code with Each (twice, around the Finds), First, Last and Find of every value observed after every call; a panic is a result no outcome allows.",
+         "bounded scope plus seeded long runs; distinct inserted values and fresh handles as the property's quantifier states; return values of Shift/Pop are not constrained (the statement does not)"),
  "C05": ("7/C05", "TLC model check of Queue.tla + TLC validation of tree-shaped recordings of the real queues",
          "TLC checks Queue!Out against the FIFO/exactly-once/size wording exhaustively (3 values, 7 ops); every Enqueue/Dequeue/Clear sequence to depth 6 (thorough 8) on both implementations plus long seeded drain/refill runs is executed on the real code, with Size/Peek/Search observed after every call and a drain at every node, and TLC accepts the recording only if every call is an outcome of Queue!Out.",
          "bounded scope (depth, 3-value alphabet) plus seeded long runs; observers are the public API; TLC, the Go toolchain and the driver's projection are trusted"),
